@@ -6,7 +6,9 @@ touches one chunk only).  Tie / search on the real code:
      find_layers, metar_msg) of 2 chunks (70 schedules, quick) / 3 chunks (34 650, thorough) with distinct data
      and per-call parameters: every chunk must end bit-identical to its isolated run (which the model reproduces);
  (b) real threads with seeded, replayable pre-emption at source-line granularity inside ampycloud/* (a
-     baton is handed between threads at `line` trace events); numerical libraries pinned to one thread;
+     baton is handed between threads at `line` trace events), and systematically: one thread is paused before
+     each distinct source line it executes while the other runs to completion; numerical libraries pinned
+     to one thread;
  (c) free-running threads with a tiny switch interval.
 (b) and (c) are searches, not proofs.
 """
@@ -221,6 +223,92 @@ def _threads(args):
     return {'k': k, 'mode': mode, 'bad': bad, 'switches': baton.switches if baton else None}
 
 
+def _locations(spec, root):
+    """Distinct source lines of ampycloud executed by one run, in order of first execution."""
+    amp = common.import_ampycloud()
+    seen, order = set(), []
+
+    def local(frame, event, arg):
+        if event == 'line':
+            loc = (frame.f_code.co_filename, frame.f_lineno)
+            if loc not in seen:
+                seen.add(loc); order.append(loc)
+        return local
+
+    def glob(frame, event, arg):
+        if event == 'call' and frame.f_code.co_filename.startswith(root):
+            return local
+        return None
+    sys.settrace(glob)
+    try:
+        with warnings.catch_warnings():
+            warnings.simplefilter('ignore')
+            amp.run(scenes.make_frame(spec[0]), prms=dict(spec[1]))
+    finally:
+        sys.settrace(None)
+    return order
+
+
+def _systematic(args):
+    """Thread A is paused the first time it is about to execute source line `loc`; thread B then runs to
+    completion; A resumes. Both must end exactly as in isolation."""
+    seed, k, locs = args
+    amp = common.import_ampycloud()
+    specs = make_chunks(seed, k, 2)
+    refs = [isolated(r, p) for r, p in specs]
+    root = str(common.REPO / 'src' / 'ampycloud')
+    bad = []
+    for who in (0, 1):
+        a, b = who, 1 - who
+        for loc in locs:
+            reached, resume = threading.Event(), threading.Event()
+            paused = [False]
+            out = {}
+
+            def local(frame, event, arg):
+                if event == 'line' and not paused[0] and (frame.f_code.co_filename, frame.f_lineno) == loc:
+                    paused[0] = True
+                    reached.set()
+                    resume.wait(timeout=120)
+                return local
+
+            def glob(frame, event, arg):
+                if event == 'call' and frame.f_code.co_filename.startswith(root):
+                    return local
+                return None
+
+            def body_a():
+                sys.settrace(glob)
+                try:
+                    with warnings.catch_warnings():
+                        warnings.simplefilter('ignore')
+                        out['a'] = observe_chunk(amp.run(scenes.make_frame(specs[a][0]), prms=dict(specs[a][1])))
+                except Exception as e:
+                    out['a'] = f'{type(e).__name__}: {e}'
+                finally:
+                    sys.settrace(None)
+                    reached.set()
+
+            ta = threading.Thread(target=body_a)
+            ta.start()
+            reached.wait(timeout=120)
+            try:
+                with warnings.catch_warnings():
+                    warnings.simplefilter('ignore')
+                    out['b'] = observe_chunk(amp.run(scenes.make_frame(specs[b][0]), prms=dict(specs[b][1])))
+            except Exception as e:
+                out['b'] = f'{type(e).__name__}: {e}'
+            resume.set()
+            ta.join(timeout=300)
+            for tag, idx in (('a', a), ('b', b)):
+                got = out.get(tag)
+                ref = {key: refs[idx][key] for key in got} if isinstance(got, dict) else None
+                if got != ref:
+                    what = got if not isinstance(got, dict) else [key for key in got if got[key] != ref[key]]
+                    bad.append((who, [os.path.basename(loc[0]), loc[1]], idx, what))
+    return {'k': k, 'n': 2 * len(locs), 'bad': bad[:3]}
+
+
 def run(chk):
     quick = chk.tier == 'quick'
     common.import_ampycloud()
@@ -239,9 +327,25 @@ def run(chk):
             tasks.append((chk.seed, k, n_chunks, all_scheds[s:s + per]))
     n_thr = 24 if quick else 400
     thr_tasks = [(chk.seed, 100 + j, 2 + j % 2, 'baton' if j % 3 else 'free') for j in range(n_thr)]
+    # systematic pre-emption: pause one thread before each distinct source line of ampycloud it executes
+    root = str(common.REPO / 'src' / 'ampycloud')
+    all_locs = _locations(make_chunks(chk.seed, 200, 2)[0], root)
+    small = [l for l in all_locs if not l[0].endswith(os.sep + 'data.py') and not l[0].endswith('logger.py')]
+    big = [l for l in all_locs if l[0].endswith(os.sep + 'data.py')]
+    locs = small + (chk.rng.sample(big, min(len(big), 60)) if quick else big)
+    sys_tasks = [(chk.seed, 200, locs[i::16]) for i in range(16)]
     with Pool(16) as pool:
         inter = pool.map(_interleave, tasks, chunksize=1)
         thr = pool.map(_threads, thr_tasks, chunksize=1)
+        systematic = pool.map(_systematic, sys_tasks, chunksize=1)
+    for r in systematic:
+        chk.count('systematic_line_preemptions', r['n'])
+        for j in range(r['n']):
+            chk.case(('systematic', id(r), j))
+        for who, loc, idx, what in r['bad']:
+            chk.spec_fail('C13.threads-equal-isolated-run',
+                          f'thread {who} paused before {loc[0]}:{loc[1]} while the other ran to completion: chunk {idx}: {what}',
+                          {'gen': {'seed': chk.seed, 'k': r['k'], 'mode': 'systematic'}, 'loc': loc, 'who': who})
     for r in inter:
         chk.count('interleavings', r['count'])
         for j in range(r['count']):
@@ -285,6 +389,13 @@ def replay(chk, obj):
     g = case.get('gen', {})
     if 'schedule' in case:
         r = _interleave((g['seed'], g['k'], g['n'], [case['schedule']]))
+        print(r)
+        return 1 if r['bad'] else 0
+    if g.get('mode') == 'systematic':
+        root = str(common.REPO / 'src' / 'ampycloud')
+        locs = [l for l in _locations(make_chunks(g['seed'], g['k'], 2)[0], root)
+                if os.path.basename(l[0]) == case['loc'][0] and l[1] == case['loc'][1]]
+        r = _systematic((g['seed'], g['k'], locs))
         print(r)
         return 1 if r['bad'] else 0
     if 'mode' in g:
